@@ -51,6 +51,7 @@ func NewNodeActor(address string, options vivid.ClusterOptions) *NodeActor {
 		metricsUpdater:          NewClusterMetricsUpdater(),
 		joinBackoff:             utils.NewExponentialBackoffWithDefault(InitialJoinRetryDelay, MaxJoinRetryDelay),
 		lastVersionVectorByAddr: make(map[string]VersionVector),
+		lastGossipSentAt:        make(map[string]time.Time),
 	}
 }
 
@@ -70,6 +71,7 @@ type NodeActor struct {
 	metricsUpdater          *MetricsUpdater
 	joinBackoff             *utils.ExponentialBackoff
 	lastVersionVectorByAddr map[string]VersionVector // 各地址上次发来的视图版本，用于发送前跳过“目标合并后不会变更”的同步
+	lastGossipSentAt        map[string]time.Time     // 各地址上次（经 shouldSendGossipTo 放行）发送 Gossip 的时刻，用于保证心跳不被无限期跳过
 }
 
 func (a *NodeActor) OnReceive(ctx vivid.ActorContext) {
@@ -615,12 +617,38 @@ func (a *NodeActor) shouldSendGossipTo(ourVersion VersionVector, targetAddr stri
 	if !ok {
 		return true
 	}
-	theirs, ok := a.lastVersionVectorByAddr[norm]
-	if !ok {
-		return true
+	// 心跳：Gossip 同时承担故障检测的心跳（成员的 LastSeen 只在直接收到其 Gossip 时刷新）。视图稳定后若因“目标不落后”而一直跳过发送，
+	// 没有任何变更的健康集群里谁也不再发送，FailureDetectionTimeout 之后各节点便开始相互剔除健康成员。
+	// 因此对同一目标的静默不得超过检测超时的四分之一
+	send := true
+	if theirs, ok := a.lastVersionVectorByAddr[norm]; ok {
+		order := ourVersion.Compare(theirs)
+		send = order != VersionBefore && !ourVersion.Equal(theirs)
 	}
-	order := ourVersion.Compare(theirs)
-	return order != VersionBefore && !ourVersion.Equal(theirs)
+	if !send {
+		if hb := a.heartbeatInterval(); hb > 0 {
+			if last, ok := a.lastGossipSentAt[norm]; !ok || time.Since(last) >= hb {
+				send = true
+			}
+		}
+	}
+	if send {
+		a.lastGossipSentAt[norm] = time.Now()
+	}
+	return send
+}
+
+// heartbeatInterval 返回对同一目标允许的最长静默时长；未启用故障检测时为 0（无需心跳）。
+func (a *NodeActor) heartbeatInterval() time.Duration {
+	timeout := a.options.FailureDetectionTimeout
+	if timeout <= 0 {
+		return 0
+	}
+	interval := timeout / 4
+	if interval < time.Second {
+		interval = time.Second
+	}
+	return interval
 }
 
 // pruneLastVersionVectors 仅保留当前视图成员与种子地址的版本记录，避免 map 无限增长。
@@ -644,6 +672,11 @@ func (a *NodeActor) pruneLastVersionVectors() {
 	for k := range a.lastVersionVectorByAddr {
 		if !allowed[k] {
 			delete(a.lastVersionVectorByAddr, k)
+		}
+	}
+	for k := range a.lastGossipSentAt {
+		if !allowed[k] {
+			delete(a.lastGossipSentAt, k)
 		}
 	}
 }
